@@ -1,11 +1,65 @@
-import TinysetModel.Proofs.Consts
-/-! C18 — see /verif/properties.jsonl.  Theorems for this property are being added; the ones
-below are the obligations checked so far. -/
+import TinysetModel.Proofs.PropsAux
+import TinysetModel.Proofs.Demo
+/-! C18 — shared-reference operations never modify a set; concurrent readers are safe.
+
+In the model every operation the Rust API offers through `&self` — `contains`, `len`, `is_empty`, `capacity`,
+`mem_used`, `iter` and the iterator methods (`cursorOf`, `next`, `advance`, `drainFrom`, `count`, `sizeHint`,
+`last`, `min`, `max`), `==` (`eqSet`), `clone`, `Debug`/`Hash` (`elems`, `hashInput`), `with_capacity_of`
+(`withCapOf`), and the borrowed operators (`unionRef`, `diffRef`, which take `a b : Rp` and return a NEW `Rp`) —
+is a total FUNCTION of the representation `r` whose result type does not contain a new version of `r`.
+"Does not modify the set" is therefore true of the model by typing, and "concurrent readers observe the
+single-threaded answers" is the statement that a function returns the same value however often and in whatever
+order it is evaluated; neither is a theorem one can usefully state.  Whether the RUST code behind `&self` really
+performs no write (no lazy repair, no cached cursor, no interior mutability) is a fact about the compiled
+crate: the harness compares the raw in-memory representation before and after every such call and runs
+concurrent reader threads against single-threaded answers.
+
+The few facts worth recording: the iterator keeps its position in the cursor, not in the set; an iteration
+in progress is unaffected by any number of other reads; the readers' answers are the specified ones. -/
 namespace C18
 open SC
 
-/-- the model's constants are the ones in the current source -/
-theorem consts_match : TinyC.codec64.splits = Gen.bitsplits64 ∧ TinyC.codec32.splits = Gen.bitsplits32 :=
-  ⟨bitsplits64_match, bitsplits32_match⟩
+variable {c : Cfg}
+
+/-- `clone` reads: it returns the same value and leaves no trace -/
+theorem clone_reads (r : Rp) : clone r = r := rfl
+
+/-- `next` returns an item and a new CURSOR; the set is an input only (this is the type of `next`), and the
+`j`-th call returns the `j`-th member whatever else has been read from `r` meanwhile -/
+theorem next_reads (ok : CfgOK c) {r : Rp} (wf : WF c r) {j : Nat} {ck : Cursor}
+    (h : advance c r j (cursorOf r) = .ok ck) :
+    ∃ ck', next c r ck = .ok ((elems c r)[j]?, ck') ∧ advance c r (j + 1) (cursorOf r) = .ok ck' := next_after ok wf h
+
+/-- any number of simultaneous readers: two cursors over the same `r`, at any two positions, each yields exactly
+its own remainder of the single-threaded iteration -/
+theorem two_readers (ok : CfgOK c) {r : Rp} (wf : WF c r) (j₁ j₂ : Nat) :
+    (∃ ck, advance c r j₁ (cursorOf r) = .ok ck ∧ ck.szLeft = (elems c r).length - j₁ ∧
+      drainFrom c r ((elems c r).length + 1) ck = .ok ((elems c r).drop j₁)) ∧
+    (∃ ck, advance c r j₂ (cursorOf r) = .ok ck ∧ ck.szLeft = (elems c r).length - j₂ ∧
+      drainFrom c r ((elems c r).length + 1) ck = .ok ((elems c r).drop j₂)) :=
+  ⟨advance_drain ok wf j₁, advance_drain ok wf j₂⟩
+
+/-- the answers every reader gets are the specified ones: membership, the number of members -/
+theorem reader_answers (ok : CfgOK c) {r : Rp} (wf : WF c r) (e : Nat) (he : e < 2 ^ c.W) :
+    (contains c r e = true ↔ e ∈ elems c r) ∧ len r = (elems c r).length :=
+  ⟨contains_refines ok wf e he, (absOK_of_wf ok wf).len⟩
+
+/-- the only operation that hands out the members AND changes the set is `drain`, which takes `&mut self`:
+the model returns the new (empty) value explicitly -/
+theorem drain_is_the_mutator (r : Rp) : (drain c r).1 = .empty ∧ (drain c r).2 = elems c r := ⟨rfl, rfl⟩
+
+/-- `with_capacity_of(&s)` reads only the capacity -/
+theorem with_capacity_of_reads (ok : CfgOK c) {r : Rp} (wf : WF c r) : capacity (withCapOf r) = capacity r :=
+  (withCapOf_ok ok wf).2.2
+
+/-! ### the hypotheses are satisfiable -/
+example : ∃ ck, advance cfg64 Demo.dense64 5 (cursorOf Demo.dense64) = .ok ck ∧ ck.szLeft = (elems cfg64 Demo.dense64).length - 5 ∧
+    drainFrom cfg64 Demo.dense64 ((elems cfg64 Demo.dense64).length + 1) ck = .ok ((elems cfg64 Demo.dense64).drop 5) :=
+  (two_readers cfg64_ok Demo.dense64_wf 5 9).1
+example : len Demo.plain32 = (elems cfg32 Demo.plain32).length := (reader_answers cfg32_ok Demo.plain32_wf 0 (by decide)).2
 
 end C18
+
+#print axioms C18.next_reads
+#print axioms C18.two_readers
+#print axioms C18.reader_answers
